@@ -146,12 +146,65 @@ class Result:
         self.ubsan_diag = 0
         self.tsan_logs = []
         self.evaluations = 0
+        # early end on a tree that violates: see verdict_is_in()
+        self.t0 = time.time()
+        self.budget = None
+        self.findings = {}
+        self._verdict = False
+
+    def _unlisted(self, prop, o):
+        return o.get("prop") == prop and match_known(self.findings, prop, str(o.get("key", ""))) is None
+
+    def verdict_is_in(self, prop, peek=None, remap=None):
+        """True once an unlisted violation of this property is on record AND the run is over the time budget for
+        trees that violate (on a tree without violations this never fires: nothing changes there).  A check that has its
+        verdict gains nothing from finishing a workload that the defect under test may have made arbitrarily slow;
+        violations listed in known_findings.json do not count, so that a different violation is still looked for.
+        peek: output file of a process that is still running (the harness flushes every violation line)."""
+        if not self.budget or time.time() < self.t0 + self.budget:
+            return False
+        with self.lock:
+            if not self._verdict and any(self._unlisted(prop, v) for v in self.viol):
+                self._verdict = True
+            if self._verdict:
+                return True
+        if peek:
+            try:
+                with open(peek) as f:
+                    for line in f:
+                        if '"t":"viol"' not in line:
+                            continue
+                        try:
+                            o = _remap(json.loads(line), remap)
+                        except ValueError:
+                            continue
+                        if self._unlisted(prop, o):
+                            with self.lock:
+                                self._verdict = True
+                            return True
+            except OSError:
+                pass
+        return False
 
     def add_cnt(self, k, v):
         if k.startswith("max:"):
             self.maxcnt[k] = max(self.maxcnt.get(k, 0), v)
         else:
             self.cnt[k] = self.cnt.get(k, 0) + v
+
+
+def _remap(o, remap):
+    """re-label a violation record: by property, or by key prefix (entries containing ':')"""
+    if remap:
+        tgt = remap.get(o.get("prop"))
+        if tgt is None:
+            for k2, t2 in remap.items():
+                if ":" in k2 and str(o.get("key", "")).startswith(k2):
+                    tgt = t2
+        if tgt:
+            o["key"] = tgt + ":sync:" + o["key"]
+            o["prop"] = tgt
+    return o
 
 
 def _read_out(path, res, runname, seed, prop_filter, remap=None):
@@ -165,16 +218,7 @@ def _read_out(path, res, runname, seed, prop_filter, remap=None):
                     continue
                 t = o.get("t")
                 if t == "viol":
-                    if remap:
-                        # by property, or by key prefix (entries containing ':')
-                        tgt = remap.get(o.get("prop"))
-                        if tgt is None:
-                            for k2, t2 in remap.items():
-                                if ":" in k2 and str(o.get("key", "")).startswith(k2):
-                                    tgt = t2
-                        if tgt:
-                            o["key"] = tgt + ":sync:" + o["key"]
-                            o["prop"] = tgt
+                    o = _remap(o, remap)
                     o["run"] = runname
                     o["seed"] = seed
                     with res.lock:
@@ -218,6 +262,10 @@ def run_chunk(binary, run, seed, lo, hi, outbase, res, prop, env_extra=None):
     cur = lo
     ended_by_monitor = 0
     while cur < hi:
+        if res.verdict_is_in(prop):
+            with res.lock:
+                res.add_cnt("runner/chunks_not_run_after_the_verdict_was_in", 1)
+            return
         out = "%s.%d" % (outbase, attempt)
         attempt += 1
         cmd = [binary, mode, str(seed), str(cur), str(hi), out] + [str(a) for a in run.get("args", [])]
@@ -236,12 +284,29 @@ def run_chunk(binary, run, seed, lo, hi, outbase, res, prop, env_extra=None):
         with open(errp, "w") as ef:
             p = subprocess.Popen(cmd, stdout=ef, stderr=subprocess.STDOUT, env=env, cwd=os.path.dirname(binary))
             timed_out = False
-            try:
-                rc = p.wait(timeout=timeout)
-            except subprocess.TimeoutExpired:
-                timed_out = True
-                p.kill()
-                rc = p.wait()
+            cut = False
+            t_end = time.time() + timeout
+            while True:
+                try:
+                    rc = p.wait(timeout=5)
+                    break
+                except subprocess.TimeoutExpired:
+                    if res.verdict_is_in(prop, peek=out, remap=run.get("remap_props")):
+                        cut = True
+                    elif time.time() < t_end:
+                        continue
+                    else:
+                        timed_out = True
+                    p.kill()
+                    rc = p.wait()
+                    break
+        if cut:
+            # the tree under test already has an unlisted violation of this property and the run is over its time
+            # budget for such trees: what this process has written so far is still read, nothing more is started
+            _read_out(out, res, run["name"], seed, prop, run.get("remap_props"))
+            with res.lock:
+                res.add_cnt("runner/processes_stopped_after_the_verdict_was_in", 1)
+            return
         stderr = open(errp, errors="replace").read()
         done = _read_out(out, res, run["name"], seed, prop, run.get("remap_props"))
         with res.lock:
@@ -301,6 +366,9 @@ def execute(spec, tier, seed, only_case=None):
     res = Result()
     bdir = B.new_builddir(prop)
     findings = load_findings()
+    res.t0, res.findings = t0, findings
+    if only_case is None:
+        res.budget = int(os.environ.get("VERIF_VIOLATING_TREE_BUDGET", {"quick": 600, "thorough": 3600}.get(tier, 600)))
     try:
         bins = {}
         libobjs = {}
@@ -349,6 +417,9 @@ def execute(spec, tier, seed, only_case=None):
         with ThreadPoolExecutor(max_workers=min(NWORK, spec.get("jobs", NWORK))) as ex:
             list(ex.map(work, enumerate(jobs)))
 
+        if res._verdict:
+            log("[%s] an unlisted violation was on record when the time budget for violating trees (%d s) ran out: "
+                "the rest of the workload was not run" % (prop, res.budget))
         # TSan verdicts
         ntsan = sum(1 for j in jobs if j[1].get("tsan"))
         if ntsan:
